@@ -78,7 +78,7 @@ var featureNames = []string{"variables", "variable-default", "variable-in-direct
 	"deviation:R8e-location-default-value", "deviation:R8d-integer-beyond-int64-for-Float-or-ID", "custom-scalar-literal-not-convertible(R15)", "several-operations",
 	"anonymous-operation", "mutation", "subscription", "arguments", "directive-on-variable-definition", "directive-on-operation", "directive-on-fragment-definition",
 	"variable-in-oneOf-field", "variable-inside-custom-scalar-literal",
-	"deviation:N1-variable-in-fragment-definition-directive", "deviation:N2-unconvertible-custom-scalar-literal-inside-typed-literal",
+	"deviation:N1-variable-in-fragment-definition-directive", "deviation:N2-unconvertible-custom-scalar-literal-inside-input-object-literal",
 	"deviation:N3-__typename-shares-response-name-with-String!-field"}
 
 type varDecl struct {
@@ -136,12 +136,10 @@ type docGen struct {
 	noDev        bool      // avoid the spec-valid constructs the library is known to reject (DocOptions.NoDeviations)
 
 	// fault injection (docfault.go)
-	fk      int // fault variant (0 = none)
-	fmode   int // 0 none, 1 count opportunities, 2 inject at ftarget
-	fcount  int
-	ftarget int
-	fdone   bool
-	fnote   string
+	fs    []*faultState // the faults being injected (usually one)
+	cur   *faultState   // the one a hook is currently offering a site to
+	fk    int           // cur.fk
+	fmode int           // 0 none, 1 count opportunities, 2 inject
 }
 
 var aliasPool = []string{"a", "b", "x", "y", "item", "first", "other", "n1", "res", "it"}
@@ -270,7 +268,9 @@ func (g *docGen) operation(kind, name string, nOps int) {
 	} else {
 		g.selSet(root, 0, -1)
 	}
-	g.opFault(op)
+	if g.fmode != 0 {
+		g.eachFault(siteOp, func() { g.opFault(op) })
+	}
 	op.body = g.lit.b
 	op.used = g.used
 	g.lit.b, g.used = saved, savedUsed
@@ -289,7 +289,7 @@ func (g *docGen) finish() *Doc {
 	for _, op := range g.ops {
 		var b []byte
 		short := op.info.Name == "" && op.info.Kind == "query" && op.used == 0 && op.dirs == "" && r.Bool()
-		if g.fmode != 0 && docFaults[g.fk].site == siteOp {
+		if g.fmode != 0 && g.hasSite(siteOp) {
 			short = false
 		}
 		if !short {
@@ -330,10 +330,27 @@ func (g *docGen) finish() *Doc {
 					b = append(b, v.dirs...)
 					op.info.Vars = append(op.info.Vars, VarInfo{Name: v.name, Type: v.typ, HasDefault: v.anyDef, Default: v.def})
 				}
-				b = g.opVarFault(op, b)
+				if g.fmode != 0 {
+					g.eachFault(siteOp, func() { b = g.opVarFault(op, b) })
+				}
 				b = append(b, ')')
 			} else {
-				b = g.opVarFaultNoVars(op, b)
+				if g.fmode != 0 {
+					opened := false
+					g.eachFault(siteOp, func() {
+						n := len(b)
+						if opened {
+							b = b[:len(b)-1] // reopen the list written by an earlier fault
+							if x := g.opVarFault(op, b); len(x) > len(b) {
+								b = x
+							}
+							b = append(b, ')')
+							return
+						}
+						b = g.opVarFaultNoVars(op, b)
+						opened = len(b) > n
+					})
+				}
 			}
 			b = append(b, op.dirs...)
 			b = append(b, ' ')
@@ -414,8 +431,8 @@ func (g *docGen) selSet(t *TypeDef, depth, ic int) {
 		g.note("__typename", t, "__typename", "", "!String")
 		g.feats |= ftTypename
 	}
-	if g.fk != 0 {
-		g.selFault(t, depth, ic)
+	if g.fmode != 0 {
+		g.eachFault(siteSel, func() { g.selFault(t, depth, ic) })
 	}
 	g.lit.b = append(g.lit.b, " }"...)
 	switch t.Kind {
@@ -848,8 +865,8 @@ func (g *docGen) subscriptionRootBody(root *TypeDef) {
 		// below the root field everything is ordinary
 		g.fieldSub(root, f)
 	}
-	if g.fk != 0 {
-		g.subFault(root)
+	if g.fmode != 0 {
+		g.eachFault(siteSub, func() { g.subFault(root) })
 	}
 	g.lit.b = append(g.lit.b, " }"...)
 }
@@ -977,7 +994,7 @@ func (g *docGen) useVar(lt *TypeRef, fl uint8) bool {
 	r := g.r
 	locDef := fl&flLocDefault != 0
 	oneOf := fl&flOneOf != 0
-	if g.fk != 0 && g.varFault(lt, fl) {
+	if g.fmode != 0 && g.anyFault(siteVar, func() bool { return g.varFault(lt, fl) }) {
 		return true
 	}
 	var v *varDecl
@@ -1021,11 +1038,11 @@ func (g *docGen) newVar(lt *TypeRef, locDef, oneOf bool) *varDecl {
 	case oneOf:
 		vt.NonNull = true
 	case lt.NonNull:
-		switch k := r.Intn(10); {
-		case k < 2:
+		switch k := r.Intn(20); {
+		case k < 4:
 			vt.NonNull = false // allowed because the variable has a non-null default
 			wantDefault = true
-		case k < 4 && locDef && !g.noDev:
+		case k < 6 && locDef && !g.noDev:
 			vt.NonNull = false // allowed because the location has a default (library: R8e)
 			wantDefault = false
 			g.feats |= ftLocDefault
